@@ -10,6 +10,8 @@ import (
 	"go/token"
 	"go/types"
 	"strings"
+
+	"golang.org/x/tools/go/packages"
 )
 
 func ghostKey(kind, name string) string { return "ghost:" + kind + ":" + name }
@@ -41,7 +43,71 @@ func (ex *Exec) ghostWrite(p *Path, kind, name, sort, val string) {
 	p.heap[key] = "(store " + ex.heapArr(p, key, sort) + " null " + val + ")"
 }
 
-// havocGhost forgets all ghost cells (used at loop heads whose body contains events).
+// havocGhostBody forgets the ghost cells of the events a loop body may raise.
+func (ex *Exec) havocGhostBody(p *Path, body ast.Node) {
+	evs := map[string]bool{}
+	tmp := &FuncInfo{Obj: ex.fi.Obj, Decl: &ast.FuncDecl{Body: &ast.BlockStmt{List: []ast.Stmt{&ast.ExprStmt{X: &ast.FuncLit{Type: &ast.FuncType{}, Body: bodyBlock(body)}}}}}, Pkg: ex.curPkgInfo()}
+	ex.reachableEvents(tmp, map[string]bool{}, evs)
+	if len(evs) == 0 {
+		return
+	}
+	evs["*"] = true
+	for name := range evs {
+		for kind, sort := range stableGhostKinds {
+			if (kind == "seq") != (name == "*") {
+				continue
+			}
+			key := ghostKey(kind, name)
+			var before string
+			if kind == "seq" || kind == "cnt" {
+				before = ex.ghostRead(p, kind, name, sort)
+			}
+			p.heap[key] = ex.c.Fresh("H:"+key, "(Array Ref "+sort+")")
+			if before != "" {
+				// sequence numbers and counters never decrease
+				p.Assume("(>= (select " + p.heap[key] + " null) " + before + ")")
+			}
+		}
+	}
+	for k := range p.heap {
+		if !strings.HasPrefix(k, "ghost:") {
+			continue
+		}
+		parts := strings.SplitN(k, ":", 3)
+		if len(parts) == 3 && evs[parts[2]] {
+			if _, stable := stableGhostKinds[parts[1]]; stable {
+				continue
+			}
+			if sortOf := ex.sortOfHeapTerm(p.heap[k]); sortOf != "" {
+				p.heap[k] = ex.c.Fresh("H:"+k, sortOf)
+			} else {
+				delete(p.heap, k)
+			}
+		}
+	}
+}
+
+func bodyBlock(n ast.Node) *ast.BlockStmt {
+	if b, ok := n.(*ast.BlockStmt); ok {
+		return b
+	}
+	if s, ok := n.(ast.Stmt); ok {
+		return &ast.BlockStmt{List: []ast.Stmt{s}}
+	}
+	return &ast.BlockStmt{}
+}
+
+// curPkgInfo returns a package wrapper for the types.Info currently in use.
+func (ex *Exec) curPkgInfo() *packages.Package {
+	for _, p := range ex.w.ByPath {
+		if p.TypesInfo == ex.info {
+			return p
+		}
+	}
+	return ex.fi.Pkg
+}
+
+// havocGhost forgets all ghost cells.
 func (ex *Exec) havocGhost(p *Path) {
 	for k := range p.heap {
 		if strings.HasPrefix(k, "ghost:") {
@@ -165,7 +231,15 @@ func (ex *Exec) eventName(fn *types.Func, call *ast.CallExpr) (string, bool) {
 		switch fn.Pkg().Path() {
 		case "net/http":
 			switch fn.Name() {
-			case "WriteHeader", "Write", "ServeHTTP", "Error", "Set", "Do", "NewRequestWithContext":
+			case "Set":
+				// header writes are named after a literal key: Set:Content-Type
+				if call != nil && len(call.Args) == 2 {
+					if bl, ok := call.Args[0].(*ast.BasicLit); ok && bl.Kind == token.STRING {
+						return "Set:" + strings.Trim(bl.Value, "\"`"), true
+					}
+				}
+				return "Set", true
+			case "WriteHeader", "Write", "ServeHTTP", "Error", "Do", "NewRequestWithContext", "Handle":
 				return fn.Name(), true
 			}
 		case "io":
@@ -184,6 +258,9 @@ func (ex *Exec) eventName(fn *types.Func, call *ast.CallExpr) (string, bool) {
 				return "reflect." + fn.Name(), true
 			}
 		case "encoding/json":
+			if fn.Name() == "MarshalJSON" || fn.Name() == "UnmarshalJSON" {
+				return fn.Name(), true
+			}
 			return "json." + fn.Name(), true
 		case "sync":
 			return "sync." + fn.Name(), true
@@ -224,6 +301,18 @@ func (ex *Exec) ghostBuiltin(p *Path, name string, call *ast.CallExpr) ([]Value,
 		return []Value{{ex.ghostRead(p, "arg"+strArg(1), strArg(0), "Iface"), types.NewInterfaceType(nil, nil)}}, true
 	case "lastErr":
 		return []Value{{ex.ghostRead(p, "err", strArg(0), "Iface"), types.Universe.Lookup("error").Type()}}, true
+	case "lastRetAs":
+		t, err := ex.w.ResolveType(call.Args[1], ex.pkg)
+		if err != nil {
+			ex.unsupp(call.Pos(), "%v", err)
+		}
+		return []Value{{ex.ghostRead(p, "ret", strArg(0), ex.c.SortOf(t)), t}}, true
+	case "lastArgAs":
+		t, err := ex.w.ResolveType(call.Args[2], ex.pkg)
+		if err != nil {
+			ex.unsupp(call.Pos(), "%v", err)
+		}
+		return []Value{{ex.ghostRead(p, "arg"+strArg(1), strArg(0), ex.c.SortOf(t)), t}}, true
 	case "lastRetIface":
 		return []Value{{ex.ghostRead(p, "ret", strArg(0), "Iface"), types.NewInterfaceType(nil, nil)}}, true
 	case "lastRetRef":
@@ -308,7 +397,15 @@ func (ex *Exec) havocEventsOf(p *Path, fi *FuncInfo) {
 				continue
 			}
 			key := ghostKey(kind, name)
+			var before string
+			if kind == "seq" || kind == "cnt" {
+				before = ex.ghostRead(p, kind, name, sort)
+			}
 			p.heap[key] = ex.c.Fresh("H:"+key, "(Array Ref "+sort+")")
+			if before != "" {
+				// sequence numbers and counters never decrease
+				p.Assume("(>= (select " + p.heap[key] + " null) " + before + ")")
+			}
 		}
 	}
 	for k := range p.heap {
